@@ -49,7 +49,7 @@ def contents():
 def options_for(cid, o, texts):
     """Option lists are the same for every content (one run.main invocation applies one list to all its files)."""
     return {"default": [], "d": ["-d"], "c": ["-c", "A"], "i": ["-i", "A:21,A:24,A:25,A:2,A:43,A:45,A:47,B:25"],
-            "p": ["-p", "custom.cfg"]}[o]
+            "p": ["-p", "custom.cfg"], "cB": ["-c", "B"]}[o]
 
 
 def custom_cfg():
@@ -115,6 +115,9 @@ def run(ctx):
         systematic.append([{"c": x, "o": "default", "via": "single", "fname": "frame.pdb", "mode": "path"},
                            {"c": y, "o": "default", "via": "single", "fname": "frame.pdb", "mode": "path"},
                            {"c": x, "o": "default", "via": "single", "fname": "frame.pdb", "mode": "path"}])
+    # the second chain selected first, then everything: nothing of the first call may show in the second
+    systematic.append([{"c": "c", "o": "cB", "via": "single"}, {"c": "c", "o": "default", "via": "single"}, {"c": "c", "o": "cB", "via": "single"}])
+    systematic.append([{"c": "c", "o": "cB", "via": "single"}, {"c": "c", "o": "d", "via": "main1"}, {"c": "a", "o": "default", "via": "single"}])
     chosen = systematic + chosen
     texts = contents()
     files = {"custom.cfg": custom_cfg()}
